@@ -125,7 +125,12 @@ func (t *wifTable) check(c *vrun.Ctx, w *world, s, shape, what string, replay an
 			return a, nil, fmt.Errorf("%s %q: no row for abstract WIF string %+v", what, s, a)
 		}
 	}
-	got, err := btcutil.DecodeWIF(s)
+	var got *btcutil.WIF
+	var err error
+	if pn := safely(func() { got, err = btcutil.DecodeWIF(s) }); pn != "" {
+		c.Violation("wif:"+shape+":panic", fmt.Sprintf("DecodeWIF(%q) [%s] panics: %s", s, what, pn), map[string]any{"string": s, "case": replay})
+		return a, nil, nil
+	}
 	c.AddEval(1)
 	bad := func(key, why string) {
 		c.Violation("wif:"+shape+":"+key, fmt.Sprintf("DecodeWIF(%q) [%s]: %s", s, what, why),
